@@ -236,13 +236,15 @@ Price/fees can be:
 
         let year_context = match year {
             Some(y) => {
-                let year_end = (y + 1) % 100;
+                // `year` comes straight from the request: widen before adding so that
+                // i32::MAX cannot overflow (a panic here leaves the request unanswered).
+                let next_year = i64::from(y) + 1;
+                let year_end = next_year.rem_euclid(100);
                 format!(
                     "Calculation Error for tax year {y}/{year_end:02}:\n\n\
                      {error_str}\n\n\
                      {hint}\n\n\
-                     UK Tax Year {y}/{year_end:02} runs from 6 April {y} to 5 April {}.",
-                    y + 1
+                     UK Tax Year {y}/{year_end:02} runs from 6 April {y} to 5 April {next_year}."
                 )
             }
             None => {
